@@ -66,7 +66,9 @@ func TestWirePair(t *testing.T) {
 		rp := replayOf("TestWirePair", c.line)
 		sv, sw := w.state(&c.V), w.state(&c.W)
 		res.Seen("case", c.Name)
-		desc := func() string { return fmt.Sprintf("pair '%s': v = %s, w = %s", c.Name, short(canon(&c.V), 400), short(canon(&c.W), 400)) }
+		desc := func() string {
+			return fmt.Sprintf("pair '%s': v = %s, w = %s", c.Name, short(canon(&c.V), 400), short(canon(&c.W), 400))
+		}
 		var wrong []string
 		// one comparison: real verdict (both directions), encodings, specification
 		cmp := func(fn string, real func(swap bool) bool, ev, ew func(*bytes.Buffer) error, model bool) {
